@@ -725,6 +725,8 @@ def cases(tier):
         cs.append(spin_pi_case(T))
     cs += layout_cases(tier)
     cs += canaries()
+    from rules import narrow
+    cs += narrow.cases(cs, 'C13')
     return cs
 
 
